@@ -70,5 +70,6 @@ with open(os.path.join(ROOT, "seeded", "RESULTS.md"), "w") as fh:
             if c["exit"] == 1 and c["first"]:
                 first = c["first"][0].replace("|", "/")[:150]
                 break
-        fh.write(f"| {sd} | {e['property']} | {e['verdict']} | {', '.join(f'{p}:{c['exit']}' for p, c in e['checks'].items())} | {first} |\n")
+        ran = ", ".join("%s:%s" % (p, c["exit"]) for p, c in e["checks"].items())
+        fh.write("| %s | %s | %s | %s | %s |\n" % (sd, e["property"], e["verdict"], ran, first))
 print("caught", sum(1 for e in results.values() if e["verdict"] == "caught"), "of", len(results))
